@@ -199,26 +199,75 @@ def _index_is_top(sub: ast.Subscript) -> bool:
     return isinstance(s, ast.UnaryOp) and isinstance(s.op, ast.USub) and isinstance(s.operand, ast.Constant) and s.operand.value == 1
 
 
+def follow_delegate(model, fn: FuncInfo, depth: int = 0) -> FuncInfo:
+    """A function whose whole body is `return g(...)` / `g(...)` for an internal g merely
+    delegates: the role is g's (`push_shape_memo -> _stack.push`)."""
+    body = [st for st in fn.body if not (isinstance(st, ast.Expr) and isinstance(st.value, ast.Constant))]
+    if depth < 3 and len(body) == 1 and isinstance(body[0], (ast.Return, ast.Expr)) and isinstance(body[0].value, ast.Call):
+        t = model.resolve_call(fn, body[0].value)
+        if t.kind == "func" and t.target is not fn:
+            return follow_delegate(model, t.target, depth + 1)
+    return fn
+
+
 def locate_stack(r):
-    """The thread-local attribute that holds the context stack: the one push appends to."""
-    push = r.push
+    """The thread-local attribute that holds the context stack: the one the push primitive
+    (push_shape_memo, or the function it delegates to) appends to."""
+    push = follow_delegate(r.m, r.push)
     al = r.local_aliases(push)
     stack_tl, stack_attr = None, None
     appended = None
     for n in walk_scope(push.node):
         if isinstance(n, ast.Call) and isinstance(n.func, ast.Attribute) and n.func.attr == "append":
             t = r.tl_of_expr(push, n.func.value, al)
-            if t is not None:
+            if t is not None and t[1]:
                 stack_tl, stack_attr = t[0], t[1][0]
                 appended = n
     need(appended is not None, "push_shape_memo no longer appends to a thread-local stack (role lost)")
     return stack_tl, stack_attr, appended
 
 
+def _returns_of(fn: FuncInfo) -> list:
+    return [n for n in walk_scope(fn.node) if isinstance(n, ast.Return)]
+
+
+def is_top_expr(r, fn: FuncInfo, e, al=None, depth: int = 0) -> bool:
+    """`<stack>[-1]`, a name bound once to it, or a call of an internal helper every return of
+    which is the top of the stack (or None: 'no context')."""
+    if al is None:
+        al = r.local_aliases(fn)
+    if isinstance(e, ast.Subscript):
+        t = r.tl_of_expr(fn, e.value, al)
+        return t is not None and _index_is_top(e)
+    if isinstance(e, ast.Name) and depth < 3:
+        d = _assignments_to(fn, e.id)
+        return len(d) == 1 and d[0][2] is None and d[0][1] is not None and is_top_expr(r, fn, d[0][1], al, depth + 1)
+    if isinstance(e, ast.Call) and depth < 3:
+        t = r.m.resolve_call(fn, e)
+        if t.kind == "func" and t.target is not fn:
+            rets = _returns_of(t.target)
+            vals = [x.value for x in rets if not (x.value is None or (isinstance(x.value, ast.Constant) and x.value.value is None))]
+            return bool(vals) and all(is_top_expr(r, t.target, v, None, depth + 1) for v in vals)
+    return False
+
+
+def reads_stack_only(r, fn: FuncInfo, stack_tl, stack_attr) -> bool:
+    """A helper that only inspects the stack (hasattr/len/top-or-None): usable as the
+    'a context exists' test."""
+    touched = False
+    for o in r.ops:
+        if o.fn is fn and o.tl == stack_tl:
+            if o.op != "load":
+                return False
+            touched = True
+    return touched
+
+
 def check_storage_discipline(ctx: RuleContext, r, tag: str = "C05.4"):
     m = ctx.model
     need(len(r.thread_locals) >= 1, "no threading.local() storage object found")
-    push, pop, get, set_ = r.push, r.pop, r.get, r.set
+    # the API functions may delegate to primitives (methods of a small stack class ...)
+    push, pop, get, set_ = (follow_delegate(m, f) for f in (r.push, r.pop, r.get, r.set))
     for f in (push, pop, get, set_):
         ctx.saw(f)
     stack_tl, stack_attr, appended = locate_stack(r)
@@ -255,7 +304,7 @@ def check_storage_discipline(ctx: RuleContext, r, tag: str = "C05.4"):
     for n in walk_scope(pop.node):
         if isinstance(n, ast.Call) and isinstance(n.func, ast.Attribute) and n.func.attr == "pop":
             t = r.tl_of_expr(pop, n.func.value, r.local_aliases(pop))
-            if t is not None:
+            if t is not None and t[1]:
                 pops.append((n, t))
     need(len(pops) >= 1, "pop_shape_memo no longer pops a thread-local stack (role lost)")
     for n, t in pops:
@@ -274,13 +323,17 @@ def check_storage_discipline(ctx: RuleContext, r, tag: str = "C05.4"):
             ctx.bad(tag, pop, n, "pop_shape_memo is no longer a single unconditional pop")
 
     # --- get: -1 index; throw-away dicts outside any context
-    rets = [n for n in walk_scope(get.node) if isinstance(n, ast.Return)]
+    rets = _returns_of(get)
     need(rets, "get_shape_memo has no return")
+    gal = r.local_aliases(get)
     for rt in rets:
         v = rt.value
         if not (isinstance(v, ast.Tuple) and len(v.elts) == 4 and all(isinstance(e, ast.Name) for e in v.elts)):
-            if isinstance(v, ast.Subscript) and r.tl_of_expr(get, v.value, r.local_aliases(get)) and _index_is_top(v):
+            if v is not None and is_top_expr(r, get, v, gal):
                 ctx.ok(tag, get.qualname, "returns the top of the stack")
+                continue
+            if isinstance(v, ast.Tuple) and len(v.elts) == 4 and all(_is_fresh_dict(e) for e in v.elts):
+                ctx.ok(tag, get.qualname, "outside any context: four throw-away dicts created by this call")
                 continue
             raise AnalysisError("get_shape_memo: return value is not a 4-tuple of names (shape not recognised)")
         for i, e in enumerate(v.elts):
@@ -289,13 +342,13 @@ def check_storage_discipline(ctx: RuleContext, r, tag: str = "C05.4"):
             for stn, val, idx in defs:
                 if idx is not None:
                     # unpacking of the stack top
-                    if isinstance(val, ast.Subscript) and r.tl_of_expr(get, val.value, r.local_aliases(get)):
-                        if not _index_is_top(val):
-                            ctx.bad(tag, get, val, "get_shape_memo reads a context other than the innermost one")
-                        elif idx != i:
+                    if is_top_expr(r, get, val, gal):
+                        if idx != i:
                             ctx.bad(tag, get, stn, "get_shape_memo returns the memo slots in a different order than stored")
                         else:
                             ctx.ok(tag, get.qualname, f"slot {i} read from the top of the stack")
+                    elif isinstance(val, ast.Subscript) and r.tl_of_expr(get, val.value, gal):
+                        ctx.bad(tag, get, val, "get_shape_memo reads a context other than the innermost one")
                     else:
                         raise AnalysisError(f"get_shape_memo: unrecognised source for `{e.id}`: {norm(val)}")
                 else:
@@ -326,12 +379,13 @@ def check_storage_discipline(ctx: RuleContext, r, tag: str = "C05.4"):
             ctx.bad(tag, o.fn, o.node, f"the binding-context stack is mutated ({o.op} on {o.tl[1]}.{o.attr}) outside "
                     "its owner functions push/pop/set_shape_memo")
     ctx.counters["stack_mutation_sites"] = n_ops
-    ctx.floor(tag, "stack_mutation_sites", 3)
+    ctx.floor(tag, "stack_mutation_sites", 2)
     # the thread-local must only be referenced from its own module
     for mod in m.modules.values():
         if mod.short == stack_tl[0]:
             continue
-        if mod.imports.get(stack_tl[1], "").endswith("." + stack_tl[1]) and mod.imports[stack_tl[1]].startswith("jaxtyping._storage"):
+        nm = stack_tl[1].split(".")[0]
+        if mod.imports.get(nm, "").endswith("." + nm) and mod.imports[nm].startswith("jaxtyping._storage") and "." not in stack_tl[1]:
             ctx.bad(tag, (mod.relpath, mod.qualname), mod.tree, f"{mod.relpath} imports the private storage object {stack_tl[1]}",
                     construct=f"import {stack_tl[1]}")
 
@@ -339,12 +393,14 @@ def check_storage_discipline(ctx: RuleContext, r, tag: str = "C05.4"):
 def _check_set(ctx, r, set_, stack_tl, stack_attr, tag, t3=None, t4=None):
     t3 = t3 or tag
     t4 = t4 or tag
+    set_ = follow_delegate(ctx.model, set_)
     al = r.local_aliases(set_)
-    params = [p for p in set_.params]
+    params = [p for p in set_.params if not (set_.cls is not None and p == set_.params[0] and p in ("self", "cls"))]
     need(len(params) == 4, "set_shape_memo no longer takes the four memos")
     found = False
     from ..typestate import NoReturn
 
+    top_nodes = []  # AST nodes that touch the top of the stack
     for n in walk_scope(set_.node):
         # shape (a): <stack>[-1] = (p1, p2, p3, p4)
         if isinstance(n, ast.Assign):
@@ -354,6 +410,7 @@ def _check_set(ctx, r, set_, stack_tl, stack_attr, tag, t3=None, t4=None):
                     if tl is None:
                         continue
                     found = True
+                    top_nodes.append(n)
                     if not _index_is_top(t):
                         ctx.bad(t4, set_, n, "set_shape_memo writes a context other than the innermost one")
                         continue
@@ -367,60 +424,112 @@ def _check_set(ctx, r, set_, stack_tl, stack_attr, tag, t3=None, t4=None):
             za = n.iter.args
             if len(za) == 2 and isinstance(n.target, ast.Tuple) and len(n.target.elts) == 2:
                 top, new = za
-                topsrc = top
-                if isinstance(top, ast.Name):
-                    d = _assignments_to(set_, top.id)
-                    topsrc = d[0][1] if len(d) == 1 else None
                 newsrc = new
                 if isinstance(new, ast.Name):
                     d = _assignments_to(set_, new.id)
                     newsrc = d[0][1] if len(d) == 1 else None
-                if isinstance(topsrc, ast.Subscript) and r.tl_of_expr(set_, topsrc.value, al) is not None:
+                topsrc = top
+                if isinstance(top, ast.Name):
+                    d = _assignments_to(set_, top.id)
+                    topsrc = d[0][1] if len(d) == 1 else None
+                is_top = is_top_expr(r, set_, top, al)
+                other = (not is_top) and isinstance(topsrc, ast.Subscript) and r.tl_of_expr(set_, topsrc.value, al) is not None
+                if is_top or other:
                     found = True
-                    if not _index_is_top(topsrc):
+                    top_nodes.append(n)
+                    if other:
                         ctx.bad(t4, set_, n, "set_shape_memo restores a context other than the innermost one")
                         continue
                     if not (isinstance(newsrc, ast.Tuple) and [getattr(e, "id", None) for e in newsrc.elts] == params):
                         ctx.bad(t3, set_, n, "set_shape_memo pairs the stored memos with its parameters in a different order")
                         continue
                     old_v, new_v = n.target.elts[0].id, n.target.elts[1].id
-                    calls = [c for c in ast.walk(n) if isinstance(c, ast.Call) and isinstance(c.func, ast.Attribute)
-                             and isinstance(c.func.value, ast.Name) and c.func.value.id == old_v]
-                    names = [c.func.attr for c in calls]
-                    upd_ok = any(c.func.attr == "update" and len(c.args) == 1 and isinstance(c.args[0], ast.Name)
-                                 and c.args[0].id == new_v for c in calls)
-                    if "clear" in names and upd_ok and names.index("clear") < names.index("update"):
-                        ctx.ok(t4, set_.qualname, "restores the four dicts on top of the stack in place (clear, then update from the snapshot)")
-                    else:
-                        ctx.bad(t4, set_, n, "the in-place rollback does not clear the live dict and then copy the snapshot into it: entries that the failed "
-                                "check overwrote (e.g. a broadcast-widened '*#name' binding) or deleted keep the value from the failed check",
-                                construct=f"in-place restore without clear()+update(snapshot): {short(n.body[0], 80)}")
+                    _check_inplace_loop(ctx, set_, n, old_v, new_v, t4)
     need(found, "set_shape_memo: no write to the top of the thread-local stack recognised (role lost / shape not recognised)")
     # guard: the write is control dependent on the has-memo test
     cfg = NoReturn(ctx.model).cfg(set_)
     guarded = True
     has_fn = ctx.model.func_opt("_storage._has_shape_memo")
     for node in cfg.live_nodes():
-        if node.kind in ("stmt", "for") and node.ast is not None:
-            touches = any(
-                isinstance(x, ast.Subscript) and r.tl_of_expr(set_, x.value, al) is not None
-                for x in ast.walk(node.ast)
-            ) if node.kind == "stmt" else False
-            if touches:
-                dom = cfg.dominators()[node.id]
-                tests = [cfg.nodes[i] for i in dom if cfg.nodes[i].kind == "test"]
-                if not any(_is_has_test(ctx.model, set_, t.ast, has_fn, r, al) for t in tests):
-                    guarded = False
-                    ctx.bad(t4, set_, node.ast, "set_shape_memo touches the stack without first testing that a context exists")
+        if node.kind in ("stmt", "for") and node.ast is not None and any(node.ast is t or (node.kind == "for" and node.ast is t) for t in top_nodes):
+            dom = cfg.dominators()[node.id]
+            tests = [cfg.nodes[i] for i in dom if cfg.nodes[i].kind == "test"]
+            if not any(_is_has_test(ctx.model, set_, t.ast, has_fn, r, al, stack_tl, stack_attr) for t in tests):
+                guarded = False
+                ctx.bad(t4, set_, node.ast, "set_shape_memo touches the stack without first testing that a context exists")
     if guarded:
         ctx.ok(t4, set_.qualname, "the write is guarded by the context-exists test")
 
 
-def _is_has_test(model, fn, test, has_fn, r, al) -> bool:
+def _check_inplace_loop(ctx, set_, loop: ast.For, old_v: str, new_v: str, tag: str):
+    """Each live dict must be cleared and then refilled from its snapshot whenever the two are
+    different objects; a guard on anything else (sizes, truthiness ...) skips the restore for
+    states the failed check may well have produced."""
+    calls = [c for c in ast.walk(loop) if isinstance(c, ast.Call) and isinstance(c.func, ast.Attribute)
+             and isinstance(c.func.value, ast.Name) and c.func.value.id == old_v]
+    names = [c.func.attr for c in calls]
+    upd_ok = any(c.func.attr == "update" and len(c.args) == 1 and isinstance(c.args[0], ast.Name)
+                 and c.args[0].id == new_v for c in calls)
+    if not ("clear" in names and upd_ok and names.index("clear") < names.index("update")):
+        ctx.bad(tag, set_, loop, "the in-place rollback does not clear the live dict and then copy the snapshot into it: entries that the failed "
+                "check overwrote (e.g. a broadcast-widened '*#name' binding) or deleted keep the value from the failed check",
+                construct=f"in-place restore without clear()+update(snapshot): {short(loop.body[0], 80)}")
+        return
+    # guards around clear/update inside the loop body: only the identity test of the pair is a
+    # sound reason to skip
+    ident = {f"{old_v} is not {new_v}", f"{new_v} is not {old_v}"}
+    bad_guard = None
+    unknown_guard = None
+
+    def walk(stmts, guards):
+        nonlocal bad_guard, unknown_guard
+        for st in stmts:
+            if isinstance(st, ast.If):
+                walk(st.body, guards + [(st.test, True)])
+                walk(st.orelse, guards + [(st.test, False)])
+                continue
+            if isinstance(st, (ast.For, ast.While, ast.Try, ast.With)):
+                if any(c in list(ast.walk(st)) for c in calls):
+                    unknown_guard = st
+                continue
+            if any(c in list(ast.walk(st)) for c in calls):
+                for test, pol in guards:
+                    conj = test.values if isinstance(test, ast.BoolOp) and isinstance(test.op, ast.And) and pol else [test]
+                    for t in conj:
+                        tx = norm(t)
+                        if pol and tx in ident:
+                            continue
+                        if (not pol) and tx in {f"{old_v} is {new_v}", f"{new_v} is {old_v}"}:
+                            continue
+                        names_in = {x.id for x in ast.walk(t) if isinstance(x, ast.Name)}
+                        if names_in & {old_v, new_v}:
+                            bad_guard = t
+                        else:
+                            unknown_guard = t
+
+    walk(loop.body, [])
+    if bad_guard is not None:
+        ctx.bad(tag, set_, bad_guard, f"the in-place rollback of a memo is skipped under `{short(bad_guard, 70)}`: a failed check can change a binding "
+                "without changing what this condition looks at (e.g. re-broadcasting an existing '*#name' entry keeps the size), so its binding "
+                "would survive the rollback", construct=f"in-place restore guarded by {short(bad_guard, 70)}")
+    elif unknown_guard is not None:
+        raise AnalysisError(f"set_shape_memo: the in-place restore is guarded by `{short(unknown_guard, 60)}`, which the rule cannot interpret")
+    else:
+        ctx.ok(tag, set_.qualname, "restores the four dicts on top of the stack in place (clear, then update from the snapshot; skipped only for the identical object)")
+
+
+def _is_has_test(model, fn, test, has_fn, r, al, stack_tl=None, stack_attr=None) -> bool:
+    # `top is not None` where top comes from a top-or-None helper
+    for x in ast.walk(test):
+        if isinstance(x, ast.Compare) and len(x.ops) == 1 and isinstance(x.ops[0], (ast.IsNot, ast.Is)) \
+                and isinstance(x.comparators[0], ast.Constant) and x.comparators[0].value is None and is_top_expr(r, fn, x.left, al):
+            return True
     for c in ast.walk(test):
         if isinstance(c, ast.Call):
             t = model.resolve_call(fn, c)
             if t.kind == "func" and has_fn is not None and t.target is has_fn:
+                return True
+            if t.kind == "func" and stack_tl is not None and reads_stack_only(r, t.target, stack_tl, stack_attr):
                 return True
             if isinstance(c.func, ast.Name) and c.func.id in ("len", "hasattr") and c.args:
                 if r.tl_of_expr(fn, c.args[0], al) is not None or (
